@@ -511,6 +511,63 @@ def _boundary_safe(t, depth=0):
     return False
 
 
+def _ascii_lit(t):
+    t = mir.strip_refs(t)
+    if t[0] == "const" and isinstance(t[2], tuple) and t[2][0] == "str" and all(ord(ch) < 128 for ch in t[2][1]):
+        return t[2][1]
+    return None
+
+
+def _unwrap_str(t):
+    t = mir.strip_refs(t)
+    for _ in range(6):
+        if t[0] == "call" and isinstance(t[1], str) and t[1].rsplit("::", 1)[-1] in ("deref", "as_str", "as_ref", "borrow") and t[2]:
+            t = mir.strip_refs(t[2][0])
+        else:
+            break
+    return t
+
+
+def _behind_ascii_prefix(facts, f, bb, S, off):
+    """a constant byte offset k is a char boundary of S when S is known to start with an ASCII literal of at least k
+    bytes: a dominating `S.starts_with(lit)` (true side), or S = V[i] with i found by
+    `V.iter().position(|x| x.starts_with(lit))`"""
+    off = mir.strip_refs(off)
+    if not is_const_int(off):
+        return False
+    k = off[2]
+    S = _unwrap_str(S)
+    for g in sorted(f.reachable()):
+        t = f.term(g)
+        if t["k"] != "switch" or g == bb or not f.dominates(g, bb):
+            continue
+        c = f.operand(t["discr"], f.end_point(g))
+        if c[0] == "call" and isinstance(c[1], str) and c[1].endswith("::starts_with") and len(c[2]) == 2:
+            lit = _ascii_lit(c[2][1])
+            if lit is not None and len(lit) >= k and _unwrap_str(c[2][0]) == S and f.dominates(t["otherwise"], bb):
+                return True
+    if S[0] == "call" and isinstance(S[1], str) and S[1].rsplit("::", 1)[-1] == "index" and len(S[2]) == 2:
+        i = mir.strip_refs(S[2][1])
+        while i[0] == "proj":
+            i = mir.strip_refs(i[1])
+        if i[0] == "call" and isinstance(i[1], str) and i[1].rsplit("::", 1)[-1] == "position" and len(i[2]) == 2:
+            clo = mir.strip_refs(i[2][1])
+            if clo[0] == "agg" and isinstance(clo[1], tuple) and clo[1][0] == "closure" and facts.has_fn(clo[1][1]):
+                g = facts.fn(clo[1][1])
+                from elems import return_term
+                rt = return_term(g)
+                rt = mir.strip_refs(rt) if rt is not None else None
+                if rt is not None and rt[0] == "call" and isinstance(rt[1], str) and rt[1].endswith("::starts_with") and len(rt[2]) == 2:
+                    lit = _ascii_lit(rt[2][1])
+                    # the closure tests its own argument, and the position is taken in the vector that is then indexed
+                    V = mir.strip_refs(S[2][0])
+                    same_vec = []
+                    mir.walk(i[2][0], lambda y: (same_vec.append(1) if mir.strip_refs(y) == V else None) or True)
+                    if lit is not None and len(lit) >= k and same_vec:
+                        return True
+    return False
+
+
 @rule("R-STR-SLICE", ["C09"])
 def r_str_slice(cx):
     """every byte-range slice of a str/String must cut at char boundaries for *every* text"""
@@ -534,7 +591,7 @@ def r_str_slice(cx):
                       nontrivial=False)
                 k += 1
                 continue
-            ok = bool(bounds) and all(_boundary_safe(b) for b in bounds)
+            ok = bool(bounds) and all(_boundary_safe(b) or _behind_ascii_prefix(cx.f, f, bb, f.arg_terms(bb)[0], b) for b in bounds)
             cx.ob("R-STR-SLICE", "%s/slice%d" % (name, k), ok,
                   "%s: slice bounds %s come from find()/len() of the text and are char boundaries" % (
                       name, [mir.show(b, maxd=2)[:30] for b in bounds]) if ok else
@@ -789,3 +846,117 @@ def r_insert_bound(cx):
                   "rebuilt or shrunk after the last test): this panics for a step that is empty after filtering, e.g. a "
                   "PROJ step consisting of `inv` only" % (name, tail, k, need), cx.where(t["span"]))
     cx.count("R-INSERT-BOUND", "constant_positions", n)
+
+
+@rule("R-GRIDS-INDEX-GUARD", ["C09", "C08"])
+def r_grids_index_guard(cx):
+    """The grid list of an operator has whatever length the `grids=` parameter (and the availability of optional
+    grids) gives it - possibly zero. Every `grids[k]` in an operator function is dominated by the non-empty side of an
+    emptiness test of that very list (the "nothing to do" early return)."""
+    n = 0
+    for name in sorted(cx.f.lib["fns"]):
+        if not name.startswith("inner_op::") or "::tests" in name:
+            continue
+        f = cx.f.fn(name)
+        for bb, t in f.calls():
+            c = f.callee(t) or ""
+            if not (c.endswith("ops::Index<I>>::index") and "Vec" in c):
+                continue
+            a = f.arg_terms(bb)
+            if len(a) < 2 or K.receiver_map(cx.f, a[0]) != "grids" or not is_const_int(mir.strip_refs(a[1])):
+                continue
+            n += 1
+            V = mir.strip_refs(a[0])
+            ok = mir.strip_refs(a[1])[2] == 0 and _nonempty_guard(f, bb, V)
+            cx.ob("R-GRIDS-INDEX-GUARD", "%s/index%d" % (name, n - 1), ok,
+                  "grids[%d] is read behind a non-emptiness test of the grid list" % mir.strip_refs(a[1])[2] if ok else
+                  "%s reads grids[%d] where the grid list may be empty (no dominating `grids.is_empty()` early return): an "
+                  "operator whose only grid is optional and missing (`grids=@missing`) panics when applied" % (
+                      name, mir.strip_refs(a[1])[2]), cx.where(t["span"]))
+    cx.count("R-GRIDS-INDEX-GUARD", "indexed_grid_lists", n)
+
+
+# ---------------------------------------------------------------------------------------------------------------------
+# R-UNSIGNED-SUB (C09, C13): no unguarded subtraction from a user-given natural number
+
+def _lower_bound(f, site_bb, x):
+    """largest lower bound of the unsigned value x established by tests dominating site_bb"""
+    x = mir.strip_refs(x)
+    lb = 0
+    for g in sorted(f.reachable()):
+        t = f.term(g)
+        if t["k"] != "switch" or g == site_bb or not f.dominates(g, site_bb):
+            continue
+        c = f.operand(t["discr"], f.end_point(g))
+        neg = False
+        while c[0] == "un" and c[1] == "Not":
+            c, neg = c[2], not neg
+        false_bb = None
+        for val, bb in t["targets"]:
+            if val == 0:
+                false_bb = bb
+        true_bb = t["otherwise"]
+
+        def side(b):
+            return b is not None and b != site_bb and f.dominates(b, site_bb) or (b == site_bb and _single_pred(f, b))
+        if c[0] == "call" and isinstance(c[1], str) and c[1].endswith("::contains") and "Range" in c[1] and len(c[2]) == 2:
+            r, v = mir.strip_refs(c[2][0]), mir.strip_refs(c[2][1])
+            if v == x and r[0] == "agg" and r[2] and is_const_int(r[2][0]) and side(false_bb if neg else true_bb):
+                lb = max(lb, r[2][0][2])
+        if c[0] == "bin" and c[1] in ("Lt", "Le", "Gt", "Ge", "Eq", "Ne"):
+            a, b = mir.strip_refs(c[2]), mir.strip_refs(c[3])
+            op = c[1]
+            if b == x and is_const_int(a):
+                a, b = b, a
+                op = {"Lt": "Gt", "Le": "Ge", "Gt": "Lt", "Ge": "Le"}.get(op, op)
+            if a == x and is_const_int(b):
+                k = b[2]
+                T, F = (false_bb, true_bb) if neg else (true_bb, false_bb)
+                if op == "Ge" and side(T) or op == "Lt" and side(F):
+                    lb = max(lb, k)
+                if op == "Gt" and side(T) or op == "Le" and side(F):
+                    lb = max(lb, k + 1)
+                if k == 0 and (op == "Ne" and side(T) or op == "Eq" and side(F)):
+                    lb = max(lb, 1)
+    return lb
+
+
+@rule("R-UNSIGNED-SUB", ["C09", "C13"])
+def r_unsigned_sub(cx):
+    """A natural-number parameter (`params.natural(..)`: a usize the user wrote) from which a constant is subtracted in
+    unsigned arithmetic needs a dominating test that it is at least that constant: otherwise the subtraction panics in
+    a debug build and wraps to ~1.8e19 in a release build (utm's central meridian computed as `6 * (zone - 31) + 3`).
+    No such subtraction exists on the reviewed tree; the rule is kept alive by a self-test mutant."""
+    n = fns = 0
+    for name in sorted(cx.f.lib["fns"]):
+        if not name.startswith("inner_op::") or "::tests" in name:
+            continue
+        f = cx.f.fn(name)
+        fns += 1
+        for bb, i, s in f.all_stmts():
+            if not (s["k"] == "assign" and s["rv"]["k"] == "bin" and str(s["rv"].get("op", "")).startswith("Sub")):
+                continue
+            v = f.rvalue(s["rv"], (bb, i))
+            if v[0] != "bin" or not is_const_int(mir.strip_refs(v[3])):
+                continue
+            lhs = mir.strip_refs(v[2])
+            nat = []
+            mir.walk(lhs, lambda y: (nat.append(y) if y[0] == "call" and isinstance(y[1], str) and
+                                     y[1].endswith("ParsedParameters::natural") else None) or True)
+            # the plain value read from the parameter (through `?` / unwrap), not an expression of it
+            core = lhs
+            while core[0] == "proj" or (core[0] == "call" and isinstance(core[1], str) and
+                                        core[1].rsplit("::", 1)[-1] in ("branch", "unwrap", "unwrap_or", "unwrap_or_default", "expect")):
+                core = mir.strip_refs(core[1] if core[0] == "proj" else core[2][0])
+            if not nat or core not in nat:
+                continue
+            n += 1
+            k = mir.strip_refs(v[3])[2]
+            lb = _lower_bound(f, bb, lhs)
+            ok = lb >= k
+            cx.ob("R-UNSIGNED-SUB", "%s/sub%d" % (name, n - 1), ok,
+                  "the natural parameter is known to be >= %d where %d is subtracted" % (lb, k) if ok else
+                  "%s subtracts %d from a natural-number parameter that is only known to be >= %d: unsigned underflow "
+                  "(panic in debug builds, a wrapped value of about 1.8e19 otherwise)" % (name, k, lb), cx.where(s.get("span")))
+    cx.ob("R-UNSIGNED-SUB", "scan", fns > 0, "%d operator functions scanned, %d subtraction(s) from natural parameters" % (fns, n), "src/inner_op")
+    cx.count("R-UNSIGNED-SUB", "functions_scanned", fns)
